@@ -104,6 +104,19 @@ static bool parse_op(const char *s, size_t len, struct opdef *od)
     return true;
 }
 
+/* the amount of a pool or buffer operation: the number in its name, or with variant letter 'h' that number plus 2^63
+ * (the upper half of the 64-bit range), or with 'm' nearly 2^64 */
+static uint64_t op_amount(const struct opdef *od)
+{
+    if (od->b == 13) {
+        return UINT64_MAX - 1;
+    }
+    if (od->b == 8) {
+        return (UINT64_C(1) << 63) + (uint64_t)od->a;
+    }
+    return (uint64_t)od->a;
+}
+
 static int parse_list(const char *s, struct opdef *out, int max)
 {
     int n = 0;
@@ -160,7 +173,7 @@ static void configure(void)
         cfg_budget[p] = (int)tmp[p];
     }
     D.nres = (int)vx_opt_int("res", 0);
-    D.pool_cap = (uint64_t)vx_opt_int("pool", 0);
+    D.pool_cap = !strcmp(vx_opt("pool", "0"), "max") ? UINT64_MAX : strtoull(vx_opt("pool", "0"), NULL, 0);
     D.has_pool = D.pool_cap > 0;
     const char *bc = vx_opt("buf", "0");
     D.buf_cap = !strcmp(bc, "max") ? UINT64_MAX : strtoull(bc, NULL, 0);
@@ -363,9 +376,9 @@ static bool enabled(int p, const struct opdef *od)
     case K_RREL:
         return q < D.nres && D.res_belief[p][q];
     case K_PACQ: case K_PPRE:
-        return D.has_pool && od->a > 0 && D.pool_held[p] + (uint64_t)od->a <= D.pool_cap;
+        return D.has_pool && od->a > 0 && op_amount(od) <= D.pool_cap && D.pool_held[p] <= D.pool_cap - op_amount(od);
     case K_PREL:
-        return D.has_pool && od->a > 0 && D.pool_held[p] >= (uint64_t)od->a;
+        return D.has_pool && od->a > 0 && D.pool_held[p] >= op_amount(od);
     case K_BPUT:
         return D.has_buf && (od->a > 0 || od->b == 13);
     case K_BGET:
@@ -631,7 +644,7 @@ static int64_t do_op(int p, const struct opdef *od)
         }
         break;
     case K_BPUT: case K_BGET: case K_PACQ: case K_PPRE: case K_PREL:
-        c->in = (od->b == 13) ? UINT64_MAX - 1 /* 'm': near 2^64 */ : (uint64_t)od->a;
+        c->in = op_amount(od);
         break;
     default:
         break;
@@ -649,14 +662,14 @@ static int64_t do_op(int p, const struct opdef *od)
         ret = cmb_process_hold((double)od->a);
         break;
     case K_TADD:
-        h = cmb_process_timer_add(me, (double)od->a, od->b ? 1000 + p * 10 + (int64_t)od->a : CMB_PROCESS_TIMEOUT);
+        h = cmb_process_timer_add(me, (double)od->a, od->b ? sig_timer(p, (int)od->a) : CMB_PROCESS_TIMEOUT);
         c->out = h;
         if (D.ntimers[p] < MAXTIMERS) {
             D.timers[p][D.ntimers[p]++] = h;
         }
         break;
     case K_TSET:
-        h = cmb_process_timer_set(me, (double)od->a, od->b ? 1000 + p * 10 + (int64_t)od->a : CMB_PROCESS_TIMEOUT);
+        h = cmb_process_timer_set(me, (double)od->a, od->b ? sig_timer(p, (int)od->a) : CMB_PROCESS_TIMEOUT);
         c->out = h;
         D.ntimers[p] = 0;
         D.timers[p][D.ntimers[p]++] = h;
@@ -682,7 +695,7 @@ static int64_t do_op(int p, const struct opdef *od)
         break;
     case K_RESUME:
         D.resume_pending[q] = true;
-        cmb_process_resume(&D.procs[q], od->b ? 2000 + p : 0);
+        cmb_process_resume(&D.procs[q], od->b ? sig_resume(p) : 0);
         break;
     case K_WAITP:
         ret = cmb_process_wait_process(&D.procs[q]);
@@ -692,7 +705,7 @@ static int64_t do_op(int p, const struct opdef *od)
         ret = cmb_process_wait_event(D.envev[q]);
         break;
     case K_INT:
-        cmb_process_interrupt(&D.procs[q], 3000 + p * 10 + (int64_t)od->b, od->b == 8 ? 5 : 0);
+        cmb_process_interrupt(&D.procs[q], sig_interrupt(p, (int)od->b), od->b == 8 ? 5 : 0);
         break;
     case K_STOP:
         cmb_process_stop(&D.procs[q], (void *)(uintptr_t)(0x500 + p));
